@@ -79,7 +79,8 @@ skipp(__skipspec_t ss, struct dt_dt_s dt)
 	if (ss == 0) {
 		return 0;
 	}
-	dow = dt_get_wday(dt.d);
+	/* days beyond the ultimo are kept lazily, it's the ultimo that counts */
+	dow = dt_get_wday(dt_fixup(dt).d);
 	/* just check if the bit in the bitset `skip' is set */
 	return (ss & (1 << dow)) != 0;
 }
